@@ -210,7 +210,7 @@ class Evolver:
                 return {"kind": "map", "key": {"kind": "base", "name": "integer"}, "value": {"kind": "base", "name": "string"}}
             return {"kind": "map", "key": {"kind": "reference", "name": self.pick(pool)}, "value": self.simple_type(depth + 1, False)}
         if k == "string-literal":
-            return {"kind": "stringLiteral", "value": "vf" + self.pick(WORDS_U)}
+            return {"kind": "stringLiteral", "value": self.pick(["vf", "vf", "vf-", "vf.", "vf caf\u00e9 ", "vf\U0001F680", "vf/"]) + self.pick(WORDS_U)}
         if k == "tuple":
             n = self.draw(st.integers(2, 3))
             return {"kind": "tuple", "items": [{"kind": "base", "name": self.pick(["string", "integer", "uinteger", "boolean", "decimal"])} for _ in range(n)]}
@@ -330,7 +330,7 @@ class Evolver:
             # productions that once exposed a defect (kept as a standing floor)
             "message-no-typename", "rust-keyword-name", "base-regexp", "empty-struct-property", "request-no-typename",
             "matrix", "same-name-different-nullness", "shared-registration-method", "diamond",
-            "message-regopts-no-params", "explicit-closed-enum", "and-registration-options", "deep-mixin", "confusing-message-names", "exotic-enum-values", "message-map-keys", "marked-everything", "alias-shapes", "declares-response-error", "method-mentions-request", "literal-name-collision", "big-declarations"]
+            "message-regopts-no-params", "explicit-closed-enum", "and-registration-options", "deep-mixin", "confusing-message-names", "exotic-enum-values", "message-map-keys", "marked-everything", "alias-shapes", "declares-response-error", "method-mentions-request", "literal-name-collision", "big-declarations", "case-only-names", "mutual-recursion"]
     RUST_AND_PYTHON_KEYWORDS = ["in", "for", "as", "if", "else", "while", "continue", "break", "return", "async", "await", "try", "yield"]
 
     MATRIX_PRODUCTIONS = ["base", "ref-struct", "ref-enum", "ref-alias", "array", "map", "tuple", "ornull-first", "ornull-last", "literal",
@@ -406,8 +406,26 @@ class Evolver:
             self.doc["structures"].append({"name": name, "properties": [copy.deepcopy(variants[i])]})
             self.new_structs.append(name)
             made.append(name)
+        # ... and structures that get the name from two different ancestors (the first one in extends, mixins order wins)
+        kids = []
+        for (i, j, how) in ((0, 1, "extends"), (2, 0, "extends"), (1, 3, "mixed"), (3, 2, "mixins")):
+            kid = self.fresh_type_name("VfSnKid")
+            a, b = {"kind": "reference", "name": made[i]}, {"kind": "reference", "name": made[j]}
+            decl = {"name": kid, "properties": [{"name": "vfOwn" + WORDS_U[len(kids)], "type": {"kind": "base", "name": "string"}, "optional": True}]}
+            if how == "extends":
+                decl["extends"] = [a, b]
+            elif how == "mixins":
+                decl["mixins"] = [a, b]
+            else:
+                decl["extends"], decl["mixins"] = [a], [b]
+            self.doc["structures"].append(decl)
+            self.new_structs.append(kid)
+            kids.append(kid)
+        self.counter += 1
+        self.doc["notifications"].append({"method": f"vf/sameName{self.counter}", "messageDirection": "both", "params": {"kind": "reference", "name": kids[0]}})
         self.keep_inhabitable([])
-        self.edits.append({"edit": "E1-same-name", "structures": made, "property": pname})
+        self.edits.append({"edit": "E1-same-name", "structures": made + kids, "property": pname})
+        self.edits.append({"edit": "E6-new-message", "method": f"vf/sameName{self.counter}", "request": False})
 
     def e_focus(self, focus: str) -> None:
         """one edit that is guaranteed to exercise the named production (generation floor of a run)."""
@@ -442,7 +460,8 @@ class Evolver:
             return
         if focus == "exotic-enum-values":
             name = self.fresh_type_name("Ve")
-            vals = [("Plain", "plain"), ("Accent", "caf\u00e9"), ("Astral", "smile\U0001F600"), ("Dotted", "a.b-c"), ("Spaced", "two words")]
+            vals = [("Plain", "plain"), ("Accent", "caf\u00e9"), ("Astral", "smile\U0001F600"), ("Dotted", "a.b-c"), ("Spaced", "two words"),
+                    ("Escape", "esc\u001b[0m"), ("Bell", "b\u0007x"), ("Tab", "t\tx")]
             self.doc["enumerations"].append({"name": name, "type": {"kind": "base", "name": "string"},
                                              "values": [{"name": n, "value": v} for n, v in vals]})
             self.new_enums.append(name)
@@ -480,6 +499,62 @@ class Evolver:
         if focus == "message-regopts-no-params":
             self.e_new_message(is_request=True, registration="own", params=False)
             return self.e_new_message(is_request=False, registration="own", params=False)
+        if focus == "case-only-names":
+            # names that differ from existing ones in letter case only (one file on a case-insensitive file system)
+            structs = [s["name"] for s in self.doc["structures"] if sum(c.isupper() for c in s["name"]) >= 2 and not s["name"].startswith("_")]
+            sname = self.pick(structs)
+            lowered = lambda n: n[0] + n[1:].lower()            # noqa: E731  TextEdit -> Textedit
+            made = []
+            if lowered(sname) not in self.taken_types:
+                self.doc["structures"].append({"name": lowered(sname), "properties": [{"name": "vfCaseWord", "type": {"kind": "base", "name": "string"}}]})
+                self.taken_types.add(lowered(sname)); self.new_structs.append(lowered(sname)); made.append(lowered(sname))
+            other = self.pick([n for n in structs if n != sname])
+            if lowered(other) not in self.taken_types:
+                self.doc["enumerations"].append({"name": lowered(other), "type": {"kind": "base", "name": "string"}, "values": [{"name": "One", "value": "one"}, {"name": "Two", "value": "two"}]})
+                self.taken_types.add(lowered(other)); self.new_enums.append(lowered(other)); self.closed_enums.append(lowered(other))
+                self.edits.append({"edit": "E3-new-enum", "name": lowered(other), "base": "string", "values": ["one", "two"]})
+            typed = [m for m in self.doc["notifications"] if m.get("typeName") and sum(c.isupper() for c in m["typeName"]) >= 3]
+            user = self.fresh_type_name("VfUsesCase")
+            props = [{"name": "vfExact", "type": {"kind": "reference", "name": sname}, "optional": True}]
+            if made:
+                props.append({"name": "vfCased", "type": {"kind": "reference", "name": made[0]}})
+            if lowered(other) in self.new_enums:
+                props.append({"name": "vfCasedKind", "type": {"kind": "reference", "name": lowered(other)}, "optional": True})
+            self.doc["structures"].append({"name": user, "properties": props})
+            self.new_structs.append(user)
+            self.counter += 1
+            note = {"method": f"vf/caseOnly{self.counter}", "messageDirection": "both", "params": {"kind": "reference", "name": user}}
+            if typed:
+                tn = self.pick(typed)["typeName"]
+                cased = tn[0] + tn[1:4].lower() + tn[4:]
+                if cased != tn and cased not in self.taken_types:
+                    note["typeName"] = cased
+                    self.taken_types.add(cased)
+            self.doc["notifications"].append(note)
+            for n in made + [user]:
+                self.edits.append({"edit": "E1-new-structure", "name": n, "properties": []})
+            self.edits.append({"edit": "E6-new-message", "method": note["method"], "request": False})
+            return
+        if focus == "mutual-recursion":
+            # two structures that refer to each other: one link is a required plain reference, the way back goes through an
+            # array / optional / nullable / map, so the pair is inhabitable
+            a, b = self.fresh_type_name("VfNode"), self.fresh_type_name("VfEdge")
+            back = self.pick(["array", "optional", "ornull", "map"])
+            ra, rb = {"kind": "reference", "name": a}, {"kind": "reference", "name": b}
+            back_prop = {"array": {"name": "vfCalls", "type": {"kind": "array", "element": rb}},
+                         "optional": {"name": "vfCalls", "type": rb, "optional": True},
+                         "ornull": {"name": "vfCalls", "type": {"kind": "or", "items": [rb, {"kind": "base", "name": "null"}]}},
+                         "map": {"name": "vfCalls", "type": {"kind": "map", "key": {"kind": "base", "name": "string"}, "value": rb}}}[back]
+            self.doc["structures"].append({"name": a, "properties": [{"name": "vfName", "type": {"kind": "base", "name": "string"}}, back_prop]})
+            self.doc["structures"].append({"name": b, "properties": [{"name": "vfTarget", "type": ra}, {"name": "vfWeight", "type": {"kind": "base", "name": "uinteger"}, "optional": True}]})
+            self.new_structs += [a, b]
+            self.counter += 1
+            self.doc["requests"].append({"method": f"vf/callGraph{self.counter}", "messageDirection": "clientToServer", "params": {"kind": "reference", "name": b},
+                                         "result": {"kind": "or", "items": [ra, {"kind": "base", "name": "null"}]}})
+            self.edits.append({"edit": "E1-new-structure", "name": a, "properties": ["vfName", "vfCalls"]})
+            self.edits.append({"edit": "E1-new-structure", "name": b, "properties": ["vfTarget", "vfWeight"]})
+            self.edits.append({"edit": "E6-new-message", "method": f"vf/callGraph{self.counter}", "request": True})
+            return
         if focus == "big-declarations":
             # sizes: a structure with many properties, an enumeration with many values, a long extends chain
             name = self.fresh_type_name("VfWide")
